@@ -317,6 +317,9 @@ func exec(line string) hx.Result {
 	if strings.HasPrefix(line, "#") {
 		return execBig(line)
 	}
+	if strings.HasPrefix(line, "!") {
+		return execHuge(line)
+	}
 	c := gx.ParseCase(line)
 	var viol []hx.OracleViolation
 	skippedReps = nil
